@@ -167,8 +167,8 @@ func payloadMsg(idx, off, ln int32, variant string) (wmsg, bool) {
 	}
 	switch variant {
 	case "none":
-		if sendable && ln == 0 {
-			return m, false // same as good
+		if sendable && ln == 0 || ln < 0 {
+			return m, false // same as good / for a negative length any bytes are "long"
 		}
 	case "good":
 		if !sendable {
@@ -195,8 +195,10 @@ func payloadMsg(idx, off, ln int32, variant string) (wmsg, bool) {
 			if fullPiece(idx, off, ln) {
 				m.ValidWrite = int(idx)
 			}
-		} else {
+		} else if ln < 0 {
 			m.Payload = []byte("LLLLLLLL")
+		} else {
+			return m, false // a huge declared length can only be followed by fewer bytes ("none")
 		}
 	}
 	return m, true
@@ -274,8 +276,9 @@ func bodyless() []wmsg {
 	return out
 }
 
-// singleMessages is the field-value grid of layer (b).
-func singleMessages(thorough bool) []wmsg {
+// gridMessages is the index x offset x length cross product for the two
+// message types that carry all three fields.
+func gridMessages(thorough bool) []wmsg {
 	var out []wmsg
 	og := offGrid(thorough)
 	for _, idx := range idxGrid {
@@ -290,6 +293,13 @@ func singleMessages(thorough bool) []wmsg {
 			}
 		}
 	}
+	return out
+}
+
+// simpleMessages: index grids of the one-field messages, every type without
+// its body / with a foreign body, unknown types.
+func simpleMessages() []wmsg {
+	out := bodyless()
 	for _, idx := range idxGrid {
 		out = append(out, announceMsg(idx), cancelMsg(idx))
 		for _, code := range []int32{0, 1, -1} {
@@ -298,7 +308,6 @@ func singleMessages(thorough bool) []wmsg {
 			}
 		}
 	}
-	out = append(out, bodyless()...)
 	return out
 }
 
@@ -377,7 +386,7 @@ type hsCase struct {
 	kind string
 }
 
-var hdrGrid = []uint64{0, 1, uint64(nPieces) - 1, uint64(nPieces), uint64(nPieces) + 1, 63, 64, 65, 128, 1 << 16, 1 << 26, 1 << 32, 1 << 36, 1 << 63, math.MaxUint64}
+var hdrGrid = []uint64{0, 1, uint64(nPieces) - 1, uint64(nPieces), uint64(nPieces) + 1, 63, 64, 65, 128, 1 << 16, 1 << 26, 1 << 36, 1 << 63, math.MaxUint64}
 
 func handshakes() []hsCase {
 	var out []hsCase
@@ -514,14 +523,19 @@ func families(thorough bool) []family {
 		}
 		return c
 	}})
-	sm := singleMessages(thorough)
-	fs = append(fs, family{name: "msg", count: int64(len(sm) * len(victims)), chunk: 64, get: func(i int64) tcase {
-		m := sm[i/int64(len(victims))]
-		v := victims[i%int64(len(victims))]
-		return tcase{Family: "msg", Victim: v, Kind: m.Type, Desc: m.Desc, Msgs: []wmsg{m}}
-	}})
+	for _, fm := range []struct {
+		name string
+		msgs []wmsg
+	}{{"msg", simpleMessages()}, {"grid", gridMessages(thorough)}} {
+		sm, name := fm.msgs, fm.name
+		fs = append(fs, family{name: name, count: int64(len(sm) * len(victims)), chunk: 16, get: func(i int64) tcase {
+			m := sm[i/int64(len(victims))]
+			v := victims[i%int64(len(victims))]
+			return tcase{Family: name, Victim: v, Kind: m.Type, Desc: m.Desc, Msgs: []wmsg{m}}
+		}})
+	}
 	hs := handshakes()
-	fs = append(fs, family{name: "hs", count: int64(len(hs) * len(victims)), chunk: 32, get: func(i int64) tcase {
+	fs = append(fs, family{name: "hs", count: int64(len(hs) * len(victims)), chunk: 16, get: func(i int64) tcase {
 		h := hs[i/int64(len(victims))]
 		v := victims[i%int64(len(victims))]
 		return tcase{Family: "hs", Victim: v, Kind: h.kind, Desc: "handshake " + h.desc, HS: h.body, HSDesc: h.desc}
@@ -534,7 +548,7 @@ func families(thorough bool) []family {
 	if thorough {
 		follow = red
 	}
-	fs = append(fs, family{name: "hs+msg", count: int64(len(shapes) * len(follow) * len(victims)), chunk: 32, get: func(i int64) tcase {
+	fs = append(fs, family{name: "hs+msg", count: int64(len(shapes) * len(follow) * len(victims)), chunk: 8, get: func(i int64) tcase {
 		v := victims[i%int64(len(victims))]
 		j := i / int64(len(victims))
 		h := shapes[j/int64(len(follow))]
